@@ -293,7 +293,7 @@ func TestVerifC04RpcTable(t *testing.T) {
 	idx := 0
 	scenario := func(entry c04Entry, state string, strict bool, seq []c04Call) {
 		idx++
-		if !m.Only(idx) {
+		if !m.Only(idx) || m.ViolCount() > 80 {
 			return
 		}
 		names := ""
